@@ -33,8 +33,8 @@ RULE = ("a run = (system with finite bounds, 1-3 layers, 0/1 mask with >=1 sourc
         "distinct = distinct (layers, mask class, equal-L1, subsample kind, opacity-bound class, "
         "solver, iterations class, weights?, fault) keys")
 ASSUMPTIONS = [
-    "descent is asserted up to solver accuracy: v_next <= v_prev + eps (1 + v_prev), eps = 2e-3 "
-    "(SCS default) / 1e-5 (CLARABEL)",
+    "descent is asserted up to solver accuracy: v_next <= v_prev + eps (1 + v_prev) + eps_abs "
+    "||W*B||_F, eps = 2e-3 / eps_abs = 1e-4 (SCS default), 1e-5 / 1e-5 (CLARABEL)",
     "constraint feasibility up to 2e-3 of the bound range (SCS) / 1e-5 (CLARABEL)",
     "last-factor optimality is judged against an independent cvxpy model solved with CLARABEL",
     "sampled, not exhaustive",
@@ -260,6 +260,11 @@ def execute(plan):
     s = plan["sys"]
     est = build(plan)
     eps_d, eps_f = eps_for(plan)
+    # a loss near zero (exactly fittable targets) is only accurate to the solver's absolute
+    # accuracy on the residual, which scales with the data: measured 6.6e-5 (CLARABEL) on
+    # targets of norm ~30 where the relative bound alone allowed 1e-5
+    eps_abs = 1e-4 if plan["solver"] == "SCS" else 1e-5
+    scaleB = float(np.linalg.norm(weights_of(plan) * plan["B"]))
     n, n_layers, n_src = plan["B"].shape[0], plan["n_layers"], s["n_src"]
     violation = None
     steps = 0
@@ -340,7 +345,7 @@ def execute(plan):
         for k in range(1, len(vals)):
             rise = vals[k] - vals[k - 1]
             worst_rise = max(worst_rise, rise / (1 + vals[k - 1]))
-            if rise > eps_d * (1 + vals[k - 1]):
+            if rise > eps_d * (1 + vals[k - 1]) + eps_abs * scaleB:
                 raise Violation(
                     ID, "fit_error_increased",
                     f"alternating step {k} ({chain[k][0]}-step) raised the fitting error "
@@ -389,7 +394,7 @@ def execute(plan):
         best = r_best.value if r_best.ok else np.inf
         if not r_best.ok:
             bump("independent_refit_failed")
-        if np.isfinite(best) and got > best + 3 * eps_d * (1 + best):
+        if np.isfinite(best) and got > best + 3 * (eps_d * (1 + best) + eps_abs * scaleB):
             raise Violation(ID, "last_factor_not_optimal",
                             f"{which} was fitted last but an independent solve of its convex "
                             f"sub-problem reaches {best:.6g} < {got:.6g}", which=which, got=got,
